@@ -78,6 +78,21 @@ func c16plainExts(c Candidate) []CandidateExtension {
 	return out
 }
 
+// c16hostRaddrExt: a host candidate (whose related address the parser reads and drops) carrying an extension named
+// "raddr" in first place: Marshal puts it where the parser looks for the related address (finding S31).
+func c16hostRaddrExt(c Candidate) bool {
+	if c.Type() != CandidateTypeHost {
+		return false
+	}
+	for _, e := range c.Extensions() {
+		if e.Key != "tcptype" {
+			return e.Key == "raddr"
+		}
+	}
+
+	return false
+}
+
 // c16law checks the round trip and the equality laws for one candidate; returns (class, finding, detail).
 func c16roundTrip(s c16spec, c Candidate) (class, finding, detail string) {
 	m := c.Marshal()
@@ -462,6 +477,8 @@ func checkC16(c *runCtx) {
 			finding := ""
 			if strings.Contains(err.Error(), "invalid byte-string character") {
 				finding = "S5b"
+			} else if c16hostRaddrExt(p) {
+				finding = "S31"
 			}
 			parseCls.note("accepted text re-marshals to text the parser rejects", finding, fmt.Sprintf("%q -> %q :: %v", line, m, err))
 
@@ -471,6 +488,8 @@ func checkC16(c *runCtx) {
 			finding := ""
 			if r := p.RelatedAddress(); r != nil && r.Address != "" && r.Port == 0 {
 				finding = "S5a"
+			} else if c16hostRaddrExt(p) {
+				finding = "S31"
 			}
 			parseCls.note("accepted text re-marshals to a candidate that is not Equal", finding, fmt.Sprintf("%q -> %q -> %q", line, m, q.Marshal()))
 
@@ -480,6 +499,8 @@ func checkC16(c *runCtx) {
 			finding := ""
 			if p.TCPType() != TCPTypeUnspecified && reflect.DeepEqual(c16plainExts(p), c16plainExts(q)) {
 				finding = "S4"
+			} else if c16hostRaddrExt(p) {
+				finding = "S31"
 			}
 			parseCls.note("accepted text re-marshals to a candidate that is not DeepEqual", finding, fmt.Sprintf("%q -> %q", line, m))
 		}
@@ -493,6 +514,61 @@ func checkC16(c *runCtx) {
 				all = append(all, l+" "+t)
 			}
 		}
+	}
+	// token-level edits of well-formed lines: at up to two positions a token is dropped, emptied (two separators in a
+	// row), doubled, or replaced by a keyword / boundary value / junk; plus every single-byte truncation
+	{
+		bases := []string{
+			"f1 1 udp 2130706431 10.0.0.1 1000 typ host",
+			"f1 1 tcp 2130706431 10.0.0.1 1000 typ host tcptype passive",
+			"f2 2 udp 1694498815 203.0.113.5 2000 typ srflx raddr 10.0.0.1 rport 1000",
+			"f3 1 udp 1862270975 2001:db8::1 3000 typ prflx raddr 2001:db8::2 rport 3001 generation 0",
+			"f4 1 udp 16777215 198.51.100.7 4000 typ relay raddr 203.0.113.5 rport 2000 network-cost 10 ufrag ab",
+			"f5 1 tcp 1694498815 203.0.113.5 9 typ srflx raddr 10.0.0.1 rport 9 tcptype active",
+		}
+		repl := []string{"x", "0", "65536", "\t", "raddr", "rport", "typ", "tcptype", "host", "active", "10.0.0.1"}
+		edit1 := func(toks []string) [][]string {
+			var out [][]string
+			for i := range toks {
+				cp := func() []string { return append([]string{}, toks...) }
+				d := cp()
+				out = append(out, append(d[:i], d[i+1:]...)) // dropped
+				e := cp()
+				e[i] = ""
+				out = append(out, e) // emptied
+				dd := append(cp()[:i+1], toks[i:]...)
+				out = append(out, dd) // doubled
+				for _, r := range repl {
+					if r != toks[i] {
+						x := cp()
+						x[i] = r
+						out = append(out, x)
+					}
+				}
+			}
+
+			return out
+		}
+		seen := map[string]bool{}
+		add := func(l string) {
+			if !seen[l] {
+				seen[l] = true
+				all = append(all, l)
+			}
+		}
+		for _, b := range bases {
+			for n := 0; n <= len(b); n++ {
+				add(b[:n])
+			}
+			for _, e1 := range edit1(strings.Split(b, " ")) {
+				add(strings.Join(e1, " "))
+				add(strings.Join(e1, " ") + " ")
+				for _, e2 := range edit1(e1) {
+					add(strings.Join(e2, " "))
+				}
+			}
+		}
+		c.sample(map[string]any{"part": "parser, token-level edits", "bases": bases, "edits": "drop / empty / double / replace by " + strings.Join(repl, ",") + " at <= 2 positions; every truncation", "lines": len(seen)})
 	}
 	parallelFor(len(all), func(i int) { checkLine(all[i]) })
 	parseCls.flush(c, "parser")
